@@ -329,6 +329,12 @@ fn put_constval<'tcx>(tcx: TyCtxt<'tcx>, o: &mut J, val: ConstValue, t: Ty<'tcx>
                 }
             } else if let mir::interpret::Scalar::Ptr(ptr, _) = s {
                 o.put("ptr", J::b(true));
+                {
+                    let (prov, _) = ptr.into_raw_parts();
+                    if let mir::interpret::GlobalAlloc::Static(sdid) = tcx.global_alloc(prov.alloc_id()) {
+                        o.put("static", J::s(&tcx.def_path_str(sdid)));
+                    }
+                }
                 // `&[u8; N]` (format_args! templates, byte strings) and `&str`-like pointees: read the bytes
                 if let Some(inner) = t.builtin_deref(true) {
                     if let ty::Array(elem, len) = inner.kind() {
